@@ -307,11 +307,12 @@ static std::string Canon(const std::vector<MessageRef> & v, int kind)
 
 static void PumpOutput(AbstractMessageIOGateway * gw) { for (int g = 0; g < 64 && gw->HasBytesToOutput(); g++) if (gw->DoOutput().GetByteCount() <= 0) break; }
 // returns false if the guard tripped (a gateway that keeps claiming progress on no new input)
-static bool PumpStream(AbstractMessageIOGateway * gw, ScriptIO & io, Collect & rx, int mode)
+static bool PumpStream(AbstractMessageIOGateway * gw, ScriptIO & io, Collect & rx, int mode, uint32 prefixLen)
 {
    const uint32 N = io.len; long guard = 64 + 8L * (long)N;
+   if (prefixLen > 0 && mode != 0) { io.avail = prefixLen; while (gw->IsReadyForInput()) { if (--guard < 0) return false; const io_status_t r = gw->DoInput(rx); PumpOutput(gw); if (r.GetByteCount() <= 0) break; } }
    if (mode == 0) { io.avail = N; while (gw->IsReadyForInput()) { if (--guard < 0) return false; const io_status_t r = gw->DoInput(rx); PumpOutput(gw); if (r.GetByteCount() <= 0) break; } }
-   else for (uint32 k = 1; k <= N; k++) { io.avail = k; bool stop = false; while (gw->IsReadyForInput()) { if (--guard < 0) return false; const io_status_t r = gw->DoInput(rx); PumpOutput(gw); if (r.IsError()) { stop = true; break; } if (r.GetByteCount() <= 0) break; } if (stop) break; }
+   else for (uint32 k = prefixLen + 1; k <= N; k++) { io.avail = k; bool stop = false; while (gw->IsReadyForInput()) { if (--guard < 0) return false; const io_status_t r = gw->DoInput(rx); PumpOutput(gw); if (r.IsError()) { stop = true; break; } if (r.GetByteCount() <= 0) break; } if (stop) break; }
    io.eof = true; for (int g = 0; g < 4 && gw->IsReadyForInput(); g++) { const io_status_t r = gw->DoInput(rx); if (r.GetByteCount() <= 0) break; }
    return true;
 }
@@ -321,18 +322,18 @@ static std::map<std::string, GwKind> g_gw;
 
 static void RunStreamGateway(const PartDef & pd, const Seed & seed, const std::string & in, const std::vector<uint32> &, int mode, bool dev0, mutx::Case & c)
 {
-   const GwKind & gk = g_gw[pd.name]; ExactBuf eb(in); c02::g_allocCap = kNewCap;
+   const GwKind & gk = g_gw[pd.name]; ExactBuf eb(seed.prefix + in); c02::g_allocCap = kNewCap; const uint32 pfx = (uint32)seed.prefix.size();
    {
       ScriptIO io(eb.p, eb.n); Collect rx; verif_rand_counter = 0;
       AbstractMessageIOGatewayRef gw = gk.make(); gw()->SetDataIO(DummyDataIORef(io));
-      Phase("parse"); if (!PumpStream(gw(), io, rx, mode)) c.Fail("progress:input-loop-does-not-settle", "DoInput keeps reporting progress although no new bytes are delivered");
+      Phase("parse"); if (!PumpStream(gw(), io, rx, mode, pfx)) c.Fail("progress:input-loop-does-not-settle", "DoInput keeps reporting progress although no new bytes are delivered");
       c.Outcome(verif::Fmt("%d msgs", (int)rx.msgs.size()));
       for (size_t i = 0; i < rx.msgs.size(); i++) if (!CheckReflatten(*rx.msgs[i](), c, "delivered-Message")) break;
       if (dev0) { const std::string got = Canon(rx.msgs, gk.canon); if (got != seed.expect) c.Fail(std::string("valid-stream:not-delivered:") + pd.ModeName(mode), verif::Fmt("fault-free valid stream (%u bytes, %d Messages expected) delivered %d Messages / different content when fed ", (unsigned)in.size(), seed.numMsgs, (int)rx.msgs.size()) + pd.ModeName(mode)); }
       else {
          // reuse: Reset() is documented to make the gateway "ready to send and receive fresh data streams"
-         Phase("reuse"); gw()->Reset(); ExactBuf sb(seed.bytes); ScriptIO io2(sb.p, sb.n); Collect rx2; verif_rand_counter = 0; gw()->SetDataIO(DummyDataIORef(io2));
-         (void)PumpStream(gw(), io2, rx2, 0);
+         Phase("reuse"); gw()->Reset(); ExactBuf sb(seed.prefix + seed.bytes); ScriptIO io2(sb.p, sb.n); Collect rx2; verif_rand_counter = 0; gw()->SetDataIO(DummyDataIORef(io2));
+         (void)PumpStream(gw(), io2, rx2, 0, pfx);
          if (Canon(rx2.msgs, gk.canon) != seed.expect) { if (pd.resetDocumented) c.Fail("reuse:valid-stream-not-delivered-after-Reset", "after a mutated stream and Reset() the gateway does not deliver a valid stream"); else c.Note("observed (not asserted: gateway class has no Reset() override): after a mutated stream and Reset() the valid stream is not delivered"); }
          gw()->SetDataIO(DataIORef());
       }
@@ -524,11 +525,12 @@ static void BuildParts(bool thorough, verif::Result & res)
      p.run = RunStreamGateway; GwKind k; k.make = []() { return AbstractMessageIOGatewayRef(new TemplatingMessageIOGateway()); }; k.canon = CANON_MSGS; g_gw[p.name] = k; g_parts.push_back(p); }
    // WebSocket, server role (harness-framed client stream), slave MessageIOGateway
    { PartDef p; p.name = "gw_websocket_server"; p.entry = "WebSocketMessageIOGateway::DoInput (server role: HTTP upgrade + masked frames, slave MessageIOGateway)"; p.modes = 2; p.bigEndianToo = true;
-     MessageIOGateway fr; const std::string f1 = SendThrough(fr, seqs[0]), f2 = SendThrough(fr, seqs[1]), f3 = SendThrough(fr, seqs[4]), fbig = SendThrough(fr, seqs[7]);
-     { Seed s; s.name = "ws(upgrade, bin[mix3])"; s.bytes = std::string(kWsRequest) + WsFrame(2, true, f1, true, 0, 0x11); s.expect = CanonOf(seqs[0]); s.numMsgs = 1; p.seeds.push_back(s); }
-     { Seed s; s.name = "ws(upgrade, bin[mix3], bin126[big], bin127[nest2])"; s.bytes = std::string(kWsRequest) + WsFrame(2, true, f1, true, 0, 0x21) + WsFrame(2, true, fbig, true, 126, 0x22) + WsFrame(2, true, f3, true, 127, 0x23); std::vector<MessageRef> t; t.push_back(seqs[0][0]); t.push_back(seqs[7][0]); t.push_back(seqs[4][0]); s.expect = CanonOf(t); s.numMsgs = 3; p.seeds.push_back(s); }
-     { Seed s; s.name = "ws(upgrade, text, ping, bin-fragmented[stringx3], close)"; MessageRef tm = GetMessageFromPool(PR_COMMAND_TEXT_STRINGS); (void)tm()->AddString(PR_NAME_TEXT_LINE, "hello"); (void)tm()->AddString(PR_NAME_TEXT_LINE, "world");
-       s.bytes = std::string(kWsRequest) + WsFrame(1, true, "hello\r\nworld", true, 0, 0x31) + WsFrame(9, true, "pp", true, 0, 0x32) + WsFrame(2, false, f2.substr(0, 10), true, 0, 0x33) + WsFrame(0, true, f2.substr(10), true, 0, 0x34) + WsFrame(8, true, "", true, 0, 0x35);
+     MessageIOGateway fr; const std::string f1 = SendThrough(fr, seqs[0]), f2 = SendThrough(fr, seqs[1]), f3 = SendThrough(fr, seqs[4]);
+     const std::string fall = SendThrough(fr, seqs[2]) ; const MessageRef mixall = byName["mix_all"]; const std::string fmid = SendThrough(fr, std::vector<MessageRef>(1, mixall));
+     { Seed s; s.name = "ws(upgrade, bin[mix3])  [handshake and frame mutated]"; s.bytes = std::string(kWsRequest) + WsFrame(2, true, f1, true, 0, 0x11); s.expect = CanonOf(seqs[0]); s.numMsgs = 1; p.seeds.push_back(s); }
+     { Seed s; s.name = "ws(upgrade | bin[mix3], bin126[mix_all], bin127[nest2])  [frames mutated after a completed upgrade]"; s.prefix = kWsRequest; s.bytes = WsFrame(2, true, f1, true, 0, 0x21) + WsFrame(2, true, fmid, true, 126, 0x22) + WsFrame(2, true, f3, true, 127, 0x23); std::vector<MessageRef> t; t.push_back(seqs[0][0]); t.push_back(mixall); t.push_back(seqs[4][0]); s.expect = CanonOf(t); s.numMsgs = 3; p.seeds.push_back(s); }
+     { Seed s; s.name = "ws(upgrade | text, ping, bin-fragmented[stringx3], close)  [frames mutated after a completed upgrade]"; s.prefix = kWsRequest; MessageRef tm = GetMessageFromPool(PR_COMMAND_TEXT_STRINGS); (void)tm()->AddString(PR_NAME_TEXT_LINE, "hello"); (void)tm()->AddString(PR_NAME_TEXT_LINE, "world");
+       s.bytes = WsFrame(1, true, "hello\r\nworld", true, 0, 0x31) + WsFrame(9, true, "pp", true, 0, 0x32) + WsFrame(2, false, f2.substr(0, 10), true, 0, 0x33) + WsFrame(0, true, f2.substr(10), true, 0, 0x34) + WsFrame(8, true, "", true, 0, 0x35);
        std::vector<MessageRef> t; t.push_back(tm); t.push_back(seqs[1][0]); s.expect = CanonOf(t); s.numMsgs = 2; p.seeds.push_back(s); }
      p.run = RunStreamGateway; GwKind k; k.make = MakeWsServer; k.canon = CANON_MSGS; g_gw[p.name] = k; g_parts.push_back(p); }
    // WebSocket, client role: stream produced by the real server-role gateway in answer to the (pinned-key) client request
@@ -537,7 +539,9 @@ static void BuildParts(bool thorough, verif::Result & res)
         verif_rand_counter = 0; AbstractMessageIOGatewayRef cl = MakeWsClient(); SinkIO cs; cl()->SetDataIO(DummyDataIORef(cs)); for (int g = 0; g < 100 && cl()->HasBytesToOutput(); g++) (void)cl()->DoOutput(); cl()->SetDataIO(DataIORef());
         AbstractMessageIOGatewayRef sv = MakeWsServer(); ExactBuf rq(cs.out); ScriptIO rio(rq.p, rq.n); rio.avail = rq.n; Collect rx; sv()->SetDataIO(DummyDataIORef(rio)); for (int g = 0; g < 1000; g++) if (sv()->DoInput(rx).GetByteCount() <= 0) break;
         const std::vector<MessageRef> & t = (v == 0) ? seqs[0] : seqs[8];
-        Seed s; s.name = (v == 0) ? "wsc(101, bin[mix3])" : "wsc(101, bin[mix3], bin[stringx3], bin[nest2])"; s.bytes = SendThrough(*sv(), t); s.expect = CanonOf(t); s.numMsgs = (int)t.size(); p.seeds.push_back(s);
+        Seed s; s.name = (v == 0) ? "wsc(101, bin[mix3])  [answer and frame mutated]" : "wsc(101 | bin[mix3], bin[stringx3], bin[nest2])  [frames mutated after a completed upgrade]"; s.bytes = SendThrough(*sv(), t); s.expect = CanonOf(t); s.numMsgs = (int)t.size();
+        if (v == 1) { const size_t e = s.bytes.find("\r\n\r\n"); if (e == std::string::npos) SetupError("no HTTP answer from the server-role gateway"); else { s.prefix = s.bytes.substr(0, e + 4); s.bytes = s.bytes.substr(e + 4); } }
+        p.seeds.push_back(s);
      }
      p.run = RunStreamGateway; GwKind k; k.make = MakeWsClient; k.canon = CANON_MSGS; g_gw[p.name] = k; g_parts.push_back(p); }
    // text gateways
@@ -572,7 +576,8 @@ static void BuildParts(bool thorough, verif::Result & res)
      for (size_t i = 0; i < seqs.size(); i += 2) { MiniPacketTunnelIOGateway snd(AbstractMessageIOGatewayRef(), 1400); snd.SetZLibCompressionLevel(6); p.seeds.push_back(PacketSeed("zmini(" + seqNames[i] + ")", snd, seqs[i], 1400)); }
      p.run = RunPacketGateway; GwKind k; k.make = []() { return AbstractMessageIOGatewayRef(new MiniPacketTunnelIOGateway(AbstractMessageIOGatewayRef(), 1400)); }; k.canon = CANON_MSGS; g_gw[p.name] = k; g_parts.push_back(p); }
    // C gateways (stream = the standard MessageIOGateway framing with the default encoding)
-   { PartDef p; p.name = "gw_c_mini"; p.entry = "MGDoInput (C MiniMessageGateway)"; p.modes = 2;
+   { PartDef p; p.name = "gw_c_mini"; p.entry = "MGDoInput (C MiniMessageGateway)"; p.modes = 2; p.nest = true;
+     p.wrapNest = [](const std::string & b) { std::string s(8, '\0'); WrLE((uint8 *)&s[0], (uint32)b.size()); WrLE((uint8 *)&s[4], (uint32)MUSCLE_MESSAGE_ENCODING_DEFAULT); return s + b; };
      for (size_t i = 0; i < seqs.size(); i++) { if (seqNames[i] == "empty") continue; MessageIOGateway snd; Seed s = StreamSeed("frames(" + seqNames[i] + ")", snd, seqs[i], true); s.expect = CanonOf(seqs[i]); p.seeds.push_back(s); }
      p.run = RunMiniGateway; g_parts.push_back(p);
      PartDef q; q.name = "gw_c_micro"; q.entry = "UGDoInput (C MicroMessageGateway, 2048-byte input buffer)"; q.modes = 2;
@@ -649,6 +654,7 @@ int main(int argc, char ** argv)
                 + (pd.modes == 2 ? "; every mutated stream delivered whole and one byte at a time (x2)" : "") + (pd.nest ? "; Message-in-Message chains of depth 1,2,16,256,4096,65536" : "") + (pd.shorts ? "; all byte strings of length <=2 and of length 3..4 over {00,01,04,FF,'P','M'}" : "")
                 + ". A case is distinct by (seed, mutation, delivery); case index decodes to it. Oracle: no ASan/UBSan report, abort, signal or CPU-watchdog (5 s, x10 on confirmation); result = error status or object that re-flattens consistently; failed object reusable"
                 + (pi < 4 ? verif::Fmt("; requested heap bytes during the parse <= %lld*N + %lld (pools warmed)", kAllocA, kAllocK) : "") + ".";
+      if (!part.exhaustive && part.transitions >= pd.total) { part.exhaustive = true; part.cap = ""; }   // engine quirk: a fatal case at the very end of a stride leaves its "complete" flag false although every index was run
       part.bound_completed = part.exhaustive ? (nPairs ? 2 : 1) : 0;
       part.extra["deviation_bound"] = verif::Fmt("\"1 everywhere%s\"", nPairs ? ", 2 over structural words of the pair seeds" : "");
       done++;
